@@ -14,7 +14,7 @@ class CallbackError(Exception):
 ORDER = {"CountMinLinear": 0, "CountMinLog16": 0, "CountMinLog8": 0, "HeavyHitters": 1, "HyperLogLog": 2}
 
 
-def cb(item, *sketches, logdir=None, die_item=None, tag=None, expect=None, table=None):
+def cb(item, *sketches, logdir=None, die_item=None, tag=None, expect=None, table=None, expect_params=None):
     # items travel as small integers 0..K-1 (indices into `table`, like file numbers or offsets in
     # real use; note that the first one is falsy); the specification numbers them 1..K
     if table is not None:
@@ -24,6 +24,12 @@ def cb(item, *sketches, logdir=None, die_item=None, tag=None, expect=None, table
     kinds = [ORDER.get(type(s).__name__, 9) for s in sketches]
     if kinds != sorted(kinds) or len(set(kinds)) != len(kinds) or (expect is not None and len(sketches) != expect):
         raise CallbackError("sketches passed as %s" % [type(s).__name__ for s in sketches])
+    if expect_params:
+        # the sketches a worker is handed are configured as the caller asked
+        for sk in sketches:
+            for name, want in expect_params.get(type(sk).__name__, {}).items():
+                if int(getattr(sk, name)) != want:
+                    raise CallbackError("worker-side %s has %s=%s, the caller asked for %s" % (type(sk).__name__, name, getattr(sk, name), want))
     if tag != "tag-%d" % len(sketches):
         raise CallbackError("keyword argument tag=%r not passed through" % (tag,))
     if CTL is not None:
